@@ -225,7 +225,7 @@ func c04R4(c *Ctx) {
 			}
 			wrote := false
 			for _, e := range p.Events {
-				if e.Kind == "mapupdate" && isStoreMap(e.Args[0], "RefreshTokens") && activeOf(p, e.Args[2]) == "false" {
+				if e.Kind == "mapupdate" && isStoreMap(e.Args[0], "RefreshTokens") && activeOf(p, e.Args[2], e) == "false" {
 					deact, wrote = true, true
 				}
 				if e.Kind == "mapdelete" && isStoreMap(e.Args[0], "RefreshTokens") {
